@@ -49,6 +49,18 @@ Theorem c13_wrapper : forall MaxW : graph -> matching,
   forall m', perfect g m' -> (weight g (mwpm_networkx MaxW g) <= weight g m')%Q.
 Proof. exact wrapper_min_perfect. Qed.
 
+(* the contract is satisfiable (so c13_wrapper is not vacuous): the exhaustive matcher brute_maxw — best of
+   ALL matchings by (cardinality, weight) — meets it, and the wrapper around it is unconditionally correct *)
+Theorem c13_contract_satisfiable :
+  (forall h, is_matching h (brute_maxw h)) /\
+  (forall h m, is_matching h m -> length m <= length (brute_maxw h)) /\
+  (forall h m, is_matching h m -> length m = length (brute_maxw h) -> (weight h m <= weight h (brute_maxw h))%Q).
+Proof. exact (conj brute_maxw_matching (conj brute_maxw_card brute_maxw_weight)). Qed.
+Theorem c13_wrapper_instance : forall g, (exists m0, perfect g m0) ->
+  perfect g (mwpm_networkx brute_maxw g) /\
+  forall m', perfect g m' -> (weight g (mwpm_networkx brute_maxw g) <= weight g m')%Q.
+Proof. exact brute_mwpm_min_perfect. Qed.
+
 (* the empty graph yields the empty matching, without consulting the matcher *)
 Theorem c13_empty : (forall MaxW, mwpm_networkx MaxW [] = []) /\ perfect [] [] /\ is_min_pm [] [] = true /\ all_pms [] = [[]].
 Proof. split; [reflexivity|exact empty_graph_matching]. Qed.
@@ -65,3 +77,4 @@ Print Assumptions c13_all_pms_sound. Print Assumptions c13_all_pms_complete. Pri
 Print Assumptions c13_meq_weight. Print Assumptions c13_checker. Print Assumptions c13_min_weight.
 Print Assumptions c13_no_pm. Print Assumptions c13_add_edge_last. Print Assumptions c13_add_edge_one_entry.
 Print Assumptions c13_wrapper. Print Assumptions c13_empty.
+Print Assumptions c13_contract_satisfiable. Print Assumptions c13_wrapper_instance.
